@@ -14,6 +14,7 @@ import (
 	"strconv"
 	"strings"
 	"sync"
+	"sync/atomic"
 	"time"
 
 	textwire "github.com/textwire/textwire/v2"
@@ -36,13 +37,48 @@ var apiFiles = []treeFile{
 	{Name: "bad-in-loop", Src: "@each(x in items)PARTIAL-OUTPUT-MARKER {{ x }} {{ 6 / (3 - x) }}@end"},
 	{Name: "setvar", Src: "{{ total = 3 }}set:{{ total }}"},
 	{Name: "getvar", Src: "get:{{ total }}"},
+	{Name: "row1", Src: "row:{{ r.title }}"},
+	{Name: "row2", Src: "row:{{ r.name }}{{ r.count }}"},
+}
+
+// two different struct types with one name (function-local types): what a render sees of one must not depend on
+// whether the other was converted before
+func rowOne() any {
+	type row struct{ Title string }
+	return row{Title: "T1"}
+}
+
+func rowTwo() any {
+	type row struct {
+		Name  string
+		Count int
+	}
+	return row{Name: "N2", Count: 2}
 }
 
 const okPage = "<h>T</h><b>(1,)(2,)(3)[Bo:BO]</b>"
 const customPage = "<custom>error page</custom>"
 
-func apiData() map[string]any {
-	return map[string]any{"who": "Bo", "items": []int{1, 2, 3}}
+// apiRec is a struct type every call passes; apiDataN adds a value of a struct type no earlier call has used
+// (reflect.StructOf with a field named after n), a pointer and a nested map, so that every conversion path of the data
+// map runs in every operation - also concurrently, with types the process has not seen before.
+type apiRec struct {
+	Name string
+	Tags []string
+}
+
+var apiDataSeq atomic.Int64
+
+func apiDataN(n int64) map[string]any {
+	t := reflect.StructOf([]reflect.StructField{
+		{Name: fmt.Sprintf("F%d", n), Type: reflect.TypeOf(0)},
+		{Name: "Name", Type: reflect.TypeOf("")},
+	})
+	v := reflect.New(t).Elem()
+	v.Field(0).SetInt(n)
+	v.Field(1).SetString("n")
+	return map[string]any{"who": "Bo", "items": []int{1, 2, 3}, "fresh": v.Interface(),
+		"ptr": &apiRec{Name: "p", Tags: []string{"a", "b"}}, "m": map[string]any{"k": apiRec{Name: "q"}, "l": []any{1, "x"}}}
 }
 
 type apiCfg struct {
@@ -118,9 +154,19 @@ func (e *apiEnv) reload() error {
 
 // run executes one operation on the real code and returns its signature (root path normalised).
 func (e *apiEnv) run(o apiOp) (sig string, body string, ok bool) {
-	data := apiData()
+	dataN := apiDataSeq.Add(1)
+	data := apiDataN(dataN)
 	if o.Page == "setvar" || o.Page == "getvar" {
 		data = nil // renders without data: top-level names must not survive the call
+	}
+	rowOf := func() any {
+		if o.Page == "row1" {
+			return rowOne()
+		}
+		return rowTwo()
+	}
+	if o.Page == "row1" || o.Page == "row2" {
+		data["r"] = rowOf()
 	}
 	norm := func(s string) string { return strings.ReplaceAll(s, e.root, "$ROOT") }
 	switch o.K {
@@ -148,6 +194,10 @@ func (e *apiEnv) run(o apiOp) (sig string, body string, ok bool) {
 			src = "{{ total = \"s\" }}s:{{ total }}"
 		case "getvar":
 			src = "s:{{ total }}"
+		case "row1":
+			src = "s:{{ r.title }}"
+		case "row2":
+			src = "s:{{ r.name }}{{ r.count }}"
 		default:
 			src = "s:{{ who }}{{ items[0] / 0 }}"
 		}
@@ -167,7 +217,10 @@ func (e *apiEnv) run(o apiOp) (sig string, body string, ok bool) {
 	default:
 		sig = "unknown op " + o.K
 	}
-	if data != nil && !reflect.DeepEqual(data, apiData()) {
+	if o.Page == "row1" || o.Page == "row2" {
+		delete(data, "r")
+	}
+	if data != nil && !reflect.DeepEqual(data, apiDataN(dataN)) {
 		sig += " DATA-MODIFIED"
 	}
 	return
